@@ -5,6 +5,10 @@ ROOT = os.path.dirname(os.path.dirname(os.path.abspath(__file__)))
 
 # id -> (level, technique, level text, level note, design ref)
 CLAIMED = {
+ "C06": ("exploration", "runtime monitoring: ground-truth oracle from generated page layouts over an exhaustively enumerated small space plus PRNG and writer-produced column indexes",
+         "Held on every probed (layout, true order claim, value): all layouts of 1..4 pages (5 in thorough) over a 5-value alphabet with null pages anywhere are enumerated exhaustively with every boundary-order claim that is true for them, plus PRNG layouts up to 200 pages and the column indexes of written files (int32, truncated byte arrays, FLBA); Search, Find(NullsLast) and Find(NullsFirst) never return a page after the first page containing the value, only return pages whose bounds contain it, and return NumPages only when no bounds contain it. The enumerated sub-space is complete; the rest is sampling: exploration.",
+         "Order claims fed to the search are computed truthfully from the layout (null pages ignored), as the statement is about indexes the writer can produce; C05 checks that the writer's claims are true.",
+         "DESIGN.md §4 C06"),
  "C07": ("exploration", "runtime monitoring: membership oracle over independently decoded chunk values, probing the library's BloomFilter.Check and a spec-level SBBF check (hand-written xxhash64) of the raw bitset",
          "Held on every explored file: for each row group and each of 16 columns covering all 8 physical types (optional, repeated, dictionary), every distinct non-null value decoded from the chunk is reported present by FileBloomFilter.Check and by an independent split-block check of the stored bitset, across 8 production modes (incremental small pages, pre-sized from buffers, dictionary, verbatim copy, re-encode, merged pack path, sources without filters, pending rows before a row group), deferred and gzip-compressed filters, row-group splits. Sampling: exploration.",
          "Ground truth per chunk from specreader's decode (tied to the input by C02). Spec-level check skipped for BOOLEAN and compressed bitsets.",
